@@ -66,8 +66,8 @@ macro_rules! impl_ops_for_type {
             type Output = Duration;
             fn div(self, q: $type) -> Self::Output {
                 Duration::from_total_nanoseconds(
-                    self.total_nanoseconds()
-                        .saturating_div((q * Unit::Nanosecond).total_nanoseconds()),
+                    self.exact_total_nanoseconds()
+                        .saturating_div((q * Unit::Nanosecond).exact_total_nanoseconds()),
                 )
             }
         }
@@ -93,8 +93,8 @@ impl Mul<i64> for Duration {
     type Output = Duration;
     fn mul(self, q: i64) -> Self::Output {
         Duration::from_total_nanoseconds(
-            self.total_nanoseconds()
-                .saturating_mul((q * Unit::Nanosecond).total_nanoseconds()),
+            self.exact_total_nanoseconds()
+                .saturating_mul((q * Unit::Nanosecond).exact_total_nanoseconds()),
         )
     }
 }
